@@ -63,7 +63,7 @@ BOUND = {
     'wavelength (incl. int64 events, int32 broadcast) for the gravity kernels',
 }
 REQUIRED_CLASSES = [
-    'out_float64', 'out_float32', 'int_operand_ok', 'int32_ok', 'int32_dtype_error', 'nan_expected', 'finite_inelastic',
+    'out_float64', 'out_float32', 'int_operand_ok', 'int32_ok', 'nan_expected', 'finite_inelastic',
     'out_of_domain_single', 'binned_ok', 'broadcast_ok', 'history_single_precision_first', 'history_double_precision_first', 'fine_integer_operand', 'unit_mismatch_refused', 'path_orthogonal', 'path_generic', 'fallback_int_point',
     'same_point_int', 'geom_ok', 'propagate_ok',
 ]
@@ -407,10 +407,7 @@ def _run_tof(case, rec):
             try:
                 res = fn(**kw)
             except sc.DTypeError as e:
-                if has_i32:
-                    rec.cls('int32_dtype_error')
-                else:
-                    rec.viol(site, 'raises_dtype_error', f'{label}: {e}', **sub)
+                rec.viol(site, 'raises_dtype_error', f'{label}: {e}', **sub)
                 continue
             except sc.UnitError as e:
                 rec.viol(site, 'raises_unit_error', f'{label}: {e}', **sub)
@@ -440,10 +437,7 @@ def _run_tof(case, rec):
             try:
                 res = fn(**kw)
             except sc.DTypeError as e:
-                if has_i32:
-                    rec.cls('int32_dtype_error')
-                else:
-                    rec.viol(site, 'raises_dtype_error', f'{label}: {e}', **sub)
+                rec.viol(site, 'raises_dtype_error', f'{label}: {e}', **sub)
                 continue
             except sc.UnitError as e:
                 rec.viol(site, 'raises_unit_error', f'{label}: {e}', **sub)
@@ -705,10 +699,7 @@ def _run_total_beam_length(case, rec):
                 rec.viol(site, 'raises_unit_error', f'{label}: {e}', **sub)
             continue
         except sc.DTypeError as e:
-            if 'int32' in dts:
-                rec.cls('int32_dtype_error')
-            else:
-                rec.viol(site, 'raises_dtype_error', f'{label}: {e}', **sub)
+            rec.viol(site, 'raises_dtype_error', f'{label}: {e}', **sub)
             continue
         rec.evals += 1
         uname = _length_unit_name(res.unit)
@@ -797,10 +788,7 @@ def _run_gravity(case, rec):
         try:
             res, si = _gravity_call(kernel, variant, units, value, dt, binned, bcast, sca_scale=gp['scale'], gvec=gp['gvec'])
         except sc.DTypeError as e:
-            if dt == 'int32':
-                rec.cls('int32_dtype_error')
-            else:
-                rec.viol(site, 'int64_wavelength_rejected', f'{label}: DTypeError: {e}', **sub)
+            rec.viol(site, 'int64_wavelength_rejected', f'{label}: DTypeError: {e}', **sub)
             continue
         except sc.UnitError as e:
             rec.viol(site, 'raises_unit_error', f'{label}: {e}', **sub)
@@ -895,10 +883,7 @@ def _run_chopper(case, rec):
         try:
             res = fn(*pos)
         except sc.DTypeError as e:
-            if 'int32' in dts:
-                rec.cls('int32_dtype_error')
-            else:
-                rec.viol(site, 'raises_dtype_error', f'{label}: {e}', **sub)
+            rec.viol(site, 'raises_dtype_error', f'{label}: {e}', **sub)
             continue
         except sc.UnitError as e:
             rec.viol(site, 'raises_unit_error', f'{label}: {e}', **sub)
